@@ -144,6 +144,14 @@ def closed_roman_numeral_roots():
                         want = (st.lower() if loc_minor else st) + {0: "", 1: "#", 2: "##", -1: "-", -2: "--"}[al]
                     if got != want:
                         return False, n, {"input": [loc, k], "what": "process_local_key gives %r, diatonic arithmetic gives %r" % (got, want)}
+    # a quality suffix (+, o, %) says what stands ON the degree, not where the degree lies: its root interval is that of the bare degree
+    for tname, tab_ in (("major", sc.Roman2Interval_Maj), ("minor", sc.Roman2Interval_Min)):
+        for key_, iv_ in tab_.items():
+            bare = key_.rstrip("+o%0123456789")
+            if bare != key_ and bare in tab_:
+                n += 1
+                if (iv_.number, iv_.quality) != (tab_[bare].number, tab_[bare].quality):
+                    return False, n, {"input": [tname, key_], "what": "degree %s lies a %s%d above the tonic, %s a %s%d" % (key_, iv_.quality, iv_.number, bare, tab_[bare].quality, tab_[bare].number)}
     # chord roots
     for k in ["C", "G", "F", "a", "e", "d", "Bb", "A"]:
         kstep = k[0].upper()
@@ -151,7 +159,9 @@ def closed_roman_numeral_roots():
         minor = k[0].islower()
         for deg in ["I", "ii", "iii", "IV", "V", "vi", "i", "iv", "v", "VI", "III", "VII", "V7", "ii6", "V65", "I64",
                     # first inversions of every chord quality on lower- and upper-case degrees (the third above the root is minor on a lower-case degree)
-                    "ii%65", "vii%65", "viio6", "viio65", "ii65", "iv6", "vi6", "V6", "IV6", "I6", "i6", "ii%6", "V2", "V43"]:
+                    "ii%65", "vii%65", "viio6", "viio65", "ii65", "iv6", "vi6", "V6", "IV6", "I6", "i6", "ii%6", "V2", "V43",
+                    # every degree of the two tables in an inversion (the root is only computed for inverted chords), augmented ones included
+                    "III+6", "III+64", "III6", "VI6", "VII6", "v6", "iii6", "vii6", "II6", "V+6"]:
             import re as _re
             base = _re.match(r"[ivIV]+", deg).group(0)
             figures = _re.sub(r"^[ivIV]+[o%+]?", "", deg)
@@ -271,6 +281,12 @@ def _one(b, mk, num, q, direction, kind, case):
     from gen import scores as G
     score = mk()
     arg = score if kind == "score" else score.parts[0]
+    if direction == "down":
+        # an ordinary use before transposing: the note array (and with it every note's MIDI pitch) has been read
+        case = dict(case, note_array_read_before=True)
+        for p_ in score.parts:
+            p_.note_array()
+            [n_.midi_pitch for n_ in _pitched(p_)]
     before = G.fingerprint(arg)
     nontriv = any(n.tie_next is not None or isinstance(n, sc.GraceNote) for p in score.parts for n in _pitched(p))
     ok, res = b.guard("transpose/no_exception", case, lambda: transpose(arg, sc.Interval(num, q, direction)))
@@ -299,6 +315,20 @@ def _one(b, mk, num, q, direction, kind, case):
             if _sig(r) != _sig(o):
                 good, what = False, "note %s changed other attributes" % i
                 break
+            # what the result REPORTS as its MIDI pitch (attribute and note array column) is the pitch of its new spelling
+            want_midi = 12 * (oc + 1) + S.PC[st] + al
+            if r.midi_pitch != want_midi:
+                good, what = False, "note %s is spelled %s alter=%r octave=%r (MIDI %d) but reports midi_pitch %r" % (i, r.step, r.alter, r.octave, want_midi, r.midi_pitch)
+                break
+        if good:
+            try:
+                col = {str(x["id"]): int(x["pitch"]) for x in rp.note_array()}
+                for i, r in rn.items():
+                    if i in col and col[i] != 12 * (r.octave + 1) + S.PC[r.step.upper()] + (r.alter or 0):
+                        good, what = False, "note array of the result: note %s has pitch %d, its spelling sounds %d" % (i, col[i], 12 * (r.octave + 1) + S.PC[r.step.upper()] + (r.alter or 0))
+                        break
+            except Exception as e:
+                good, what = False, "note array of the result raised %s" % type(e).__name__
         if not good:
             break
         # everything that is not a pitched note is unchanged
